@@ -3,41 +3,9 @@
    src/auth.rs + the Statement / MetaCommand enums by tools/translate.py on every run
    (Gen/AuthTable.v); the theorems below are therefore re-proved against what the code says now.
    Hand-written (reviewed by eye, part of the trusted base): `mutates`, `admin_only`. *)
-From IL Require Import Gen.AuthTable.
+From IL Require Import Gen.AuthTable Model.AuthClass.
 From Coq Require Import List Bool.
 Import ListNotations.
-
-(* statement kinds whose execution changes persistent state (facts, rules, schemas, indexes,
-   knowledge graphs, ACLs, users, API keys, on-disk layout).  Session-scoped commands
-   (.session *, session rules) and agent/chat commands are ephemeral. A new enum variant makes
-   this match non-exhaustive and the build fails until it is classified. *)
-Definition mutates (k : stmt_kind) : bool :=
-  match k with
-  | SInsert | SDelete | SUpdate | STypeDecl | SFact | SSchemaDecl | SPersistentRule
-  | SDeleteRelationOrRule => true
-  | SSessionRule | SQuery => false
-  | MKgCreate | MKgDrop | MRelDrop
-  | MRuleDrop | MRuleDropPrefix | MRuleEdit | MRuleClear | MRuleRemove
-  | MIndexCreate | MIndexDrop | MIndexRebuild | MClearPrefix | MLoad | MCompact
-  | MUserCreate | MUserDrop | MUserPassword | MUserRole | MApiKeyCreate | MApiKeyRevoke
-  | MKgAclGrant | MKgAclRevoke => true
-  | MKgShow | MKgList | MKgUse | MRelList | MRelDescribe | MRuleList | MRuleQuery | MRuleShowDef
-  | MSessionList | MSessionClear | MSessionDrop | MSessionDropName
-  | MIndexList | MIndexStats | MStatus | MDebug | MWhy | MWhyFull | MWhyNot
-  | MAgentMessage | MAgentStart | MAgentSetup | MAgentExamples | MHelp | MQuit
-  | MUserList | MApiKeyList | MKgAclList => false
-  end.
-
-(* user management, API keys, compaction *)
-Definition admin_only (k : stmt_kind) : bool :=
-  match k with
-  | MCompact | MUserList | MUserCreate | MUserDrop | MUserPassword | MUserRole
-  | MApiKeyCreate | MApiKeyList | MApiKeyRevoke => true
-  | _ => false
-  end.
-
-Definition role_eqb (a b : role) : bool :=
-  match a, b with RAdmin, RAdmin | REditor, REditor | RViewer, RViewer => true | _, _ => false end.
 
 Lemma all_kinds_complete : forall k, In k all_kinds.
 Proof. intros k; destruct k; vm_compute; tauto. Qed.
